@@ -617,6 +617,41 @@ async fn compare_queries(out: &mut Outcome, store: &Arc<dyn object_store::Object
         let want = reference(&sql, &env.all, schema.clone()).await;
         let got = node.query(&sql).await;
         let kind = if q % 6 == 0 || q % 6 == 3 { "rows" } else { "aggregate" };
+        // the same statement as a streaming query: its historical phase is a query issued during the phase too
+        {
+            let chan = cardinalsin::ingester::BroadcastChannel::new(4);
+            let ex = cardinalsin::query::StreamingQueryExecutor::new(node.engine.clone(), inner.clone(), chan.subscribe());
+            let streamed = match ex.execute(&sql).await {
+                Ok(mut rx) => {
+                    drop(chan);
+                    let mut bs = Vec::new();
+                    let mut err = None;
+                    while let Some(b) = rx.recv().await {
+                        match b {
+                            Ok(b) => bs.push(b),
+                            Err(e) => err = Some(format!("{:?}", e)),
+                        }
+                    }
+                    match err {
+                        None => Ok(bs),
+                        Some(e) => Err(e),
+                    }
+                }
+                Err(e) => Err(format!("{:?}", e)),
+            };
+            if let (Ok(w), Ok(g)) = (&want, &streamed) {
+                let (wr, gr) = (result_rows(w), result_rows(g));
+                if wr != gr {
+                    let what = if gr.len() > wr.len() { "copies-not-suppressed" } else if gr.len() < wr.len() { "rows-missing" } else { "values-differ" };
+                    out.set_fail(format!("lifecycle:{}:{}:{}:streaming-historical", phase, kind, what), format!("{} phase, streaming query (historical phase): {}\n expected {:?}\n got {:?}", phase, sql, wr.iter().take(4).collect::<Vec<_>>(), gr.iter().take(4).collect::<Vec<_>>()));
+                    return false;
+                }
+            }
+            if let (Ok(_), Err(e)) = (&want, &streamed) {
+                out.set_fail(format!("lifecycle:{}:{}:error:streaming-historical", phase, kind), format!("{}: {}", sql, e));
+                return false;
+            }
+        }
         match (want, got) {
             (Ok(w), Ok(g)) => {
                 let (wr, gr) = (result_rows(&w), result_rows(&g));
